@@ -677,3 +677,8 @@ impl NodeManage {
             .do_send(NodeManageRequest::ActiveNode(node_id))
     }
 }
+
+// verification hook (inert unless cfg(kani) or cfg(rnacos_verif)); see /verif/DESIGN.md
+#[cfg(any(kani, rnacos_verif))]
+#[path = "/verif/harness/c14_node_manage.rs"]
+pub(crate) mod verif_priv;
